@@ -14,6 +14,9 @@
 #include "testkeys/RSA/3072_RSA.h"
 #include "testkeys/RSA/3072_RSA_KEY.h"
 #include "testkeys/RSA/3072_RSA_CA.h"
+#include "testkeys/RSA/4096_RSA.h"
+#include "testkeys/RSA/4096_RSA_KEY.h"
+#include "testkeys/RSA/4096_RSA_CA.h"
 #include "testkeys/EC/256_EC.h"
 #include "testkeys/EC/256_EC_KEY.h"
 #include "testkeys/EC/256_EC_CA.h"
@@ -35,8 +38,11 @@ int32 __wrap_psGetEntropy(unsigned char *bytes, uint32 size, void *userPtr)
 
 /* the library's global PRNG keeps state across scenarios of one process: bypass it as well
    (link with --wrap=psGetPrngLocked) so that a scenario's bytes depend on its seed only */
+static int32_t (*g_prng_hook)(unsigned char *bytes, psSize_t size) = NULL;   /* harnesses may log / fail individual draws */
+#ifndef SESS_NO_PRNG_WRAP
 int32_t __wrap_psGetPrngLocked(unsigned char *bytes, psSize_t size, void *userPtr)
-{ return __wrap_psGetEntropy(bytes, size, userPtr); }
+{ if (g_prng_hook) return g_prng_hook(bytes, size); return __wrap_psGetEntropy(bytes, size, userPtr); }
+#endif
 
 /* the library's trace output goes to stdout and would break the one-line-per-case protocol
    (link with --wrap=_psTrace,--wrap=_psTraceStr,--wrap=_psTraceInt,--wrap=_psTracePtr,--wrap=psTraceBytes) */
@@ -80,7 +86,8 @@ int32 __wrap_csChacha20Poly1305IetfEncryptTls13(void *ssl, unsigned char *pt, un
 #define MQ 4096
 typedef struct { int outer, inner, sealed; } rmeta_t;
 typedef struct { unsigned char *b; size_t len; rmeta_t m[MQ]; int mh, mt; } queue_t;
-static void q_init(queue_t *q) { if (!q->b) q->b = malloc(QCAP); q->len = 0; q->mh = q->mt = 0; }
+static void q_init(queue_t *q) { if (!q->b) q->b = malloc(QCAP); q->len = 0; q->mh = q->mt = 1024; }
+static void q_meta_push_head(queue_t *q, int outer, int inner, int sealed) { if (q->mh > 0) { q->mh--; rmeta_t *m = &q->m[q->mh % MQ]; m->outer = outer; m->inner = inner; m->sealed = sealed; } }
 static void q_meta_push(queue_t *q, int outer, int inner, int sealed) { rmeta_t *m = &q->m[q->mt++ % MQ]; m->outer = outer; m->inner = inner; m->sealed = sealed; }
 static rmeta_t q_meta_pop(queue_t *q) { rmeta_t z = { -1, -1, -1 }; if (q->mh == q->mt) return z; return q->m[q->mh++ % MQ]; }
 static uint64_t g_wire_hash[2] = { 1469598103934665603ULL, 1469598103934665603ULL }; static size_t g_wire_len[2];
@@ -147,6 +154,8 @@ static void print_snap(peer_t *p) {
 }
 
 /* move whatever the peer wants to send into the queue towards the other side */
+static int g_in_poll = 0;
+static void poll_rx(peer_t *p);
 static size_t flush_out(peer_t *p) {
     size_t total = 0; unsigned char *buf; int32 n;
     if (!p->ssl) return 0;
@@ -171,11 +180,35 @@ static size_t flush_out(peer_t *p) {
         }
         total += (size_t) n;
         int32 rc = matrixSslSentData(p->ssl, (uint32) n);
-        if (rc == MATRIXSSL_HANDSHAKE_COMPLETE) { p->done_events++; P("[sent:HSDONE]"); }
+        if (rc == MATRIXSSL_HANDSHAKE_COMPLETE) { p->done_events++; P("[sent:HSDONE]"); if (!g_in_poll) poll_rx(p); }
         else if (rc == MATRIXSSL_REQUEST_CLOSE) { P("[sent:CLOSE]"); break; }
         else if (rc < 0) { P("[sent:E%d]", rc); break; }
     }
     return total;
+}
+
+/* documented idiom (matrixsslNet.c): after matrixSslSentData reports HANDSHAKE_COMPLETE, poll with zero new bytes for
+   data the peer sent behind its Finished (TLS False Start) that is still waiting in the input buffer */
+static void poll_rx(peer_t *p) {
+    unsigned char *pt; uint32 ptlen; int guard = 0;
+    if (!p->ssl || p->ssl->inlen <= 0) return;
+    g_in_poll = 1;
+    int32 rc = matrixSslReceivedData(p->ssl, 0, &pt, &ptlen);
+    while (guard++ < 1000) {
+        if (rc == MATRIXSSL_APP_DATA || rc == MATRIXSSL_APP_DATA_COMPRESSED) {
+            P("APPDATA:"); if (!g_quiet) puthex(pt, ptlen); P(" ");
+            rc = matrixSslProcessedData(p->ssl, &pt, &ptlen); continue;
+        }
+        if (rc == MATRIXSSL_RECEIVED_ALERT) {
+            P("ALERT:%d:%d ", ptlen >= 1 ? pt[0] : -1, ptlen >= 2 ? pt[1] : -1);
+            rc = matrixSslProcessedData(p->ssl, &pt, &ptlen); continue;
+        }
+        if (rc == MATRIXSSL_REQUEST_SEND) { P("SEND "); flush_out(p); }
+        else if (rc == MATRIXSSL_REQUEST_CLOSE) P("CLOSE ");
+        else if (rc < 0) P("E%d ", rc);
+        break;
+    }
+    g_in_poll = 0;
 }
 
 /* feed bytes to a peer in chunks of `chunk` (0 = all at once); print every event */
@@ -224,7 +257,7 @@ static void peer_free(peer_t *p) {
 typedef struct {
     int cver[4], ncver, sver[4], nsver;    /* minor versions: 2 = TLS1.1, 3 = TLS1.2, 4 = TLS1.3 */
     psCipher16_t suites[8]; int nsuites;
-    int cauth, ccb, scb, key /*0 rsa 1 ec*/, resume /*0 none, 1 offer saved sid*/, ticket, ems;
+    int cauth, ccb, scb, key /*0 rsa2048 1 ec256 2 rsa4096*/, resume /*0 none, 1 offer saved sid*/, ticket, ems;
     int cca /* client loads CA: 1 yes(default) 0 no 2 wrong CA */;
     const char *name; int year; uint64_t seed;
     int keep_skeys;
@@ -237,6 +270,10 @@ static psProtocolVersion_t minor2ver(int m) {
 
 static int load_identity(sslKeys_t *k, int key, int with_id, int ca) {
     const unsigned char *cert = NULL, *priv = NULL, *cab = NULL; int32 cl = 0, pl = 0, cal = 0;
+    if (!with_id && ca == 0) return 0;          /* nothing to load: an empty key structure */
+    if (key == 2) { if (with_id) { cert = RSA4096; cl = sizeof(RSA4096); priv = RSA4096KEY; pl = sizeof(RSA4096KEY); }
+                    if (ca == 1) { cab = RSA4096CA; cal = sizeof(RSA4096CA); } else if (ca == 2) { cab = RSA3072CA; cal = sizeof(RSA3072CA); }
+                    return matrixSslLoadRsaKeysMem(k, cert, cl, priv, pl, cab, cal); }
     if (key == 0) { if (with_id) { cert = RSA2048; cl = sizeof(RSA2048); priv = RSA2048KEY; pl = sizeof(RSA2048KEY); }
                     if (ca == 1) { cab = RSA2048CA; cal = sizeof(RSA2048CA); } else if (ca == 2) { cab = RSA3072CA; cal = sizeof(RSA3072CA); }
                     return matrixSslLoadRsaKeysMem(k, cert, cl, priv, pl, cab, cal); }
@@ -259,7 +296,7 @@ static int sess_new(scfg_t *c) {
     g_wire_hash[0] = g_wire_hash[1] = 1469598103934665603ULL; g_wire_len[0] = g_wire_len[1] = 0;
     q_init(&g_c2s); q_init(&g_s2c);
     ent_seed(c->seed);
-    g_pin_year = c->year ? c->year : 2020;
+    g_pin_year = 2020;               /* keys are loaded under a date at which every test certificate is valid */
     /* server keys */
     if (c->keep_skeys && g_skeys_persist) g_s.keys = g_skeys_persist;
     else {
@@ -295,6 +332,7 @@ static int sess_new(scfg_t *c) {
     rc = matrixSslNewClientSession(&g_c.ssl, g_c.keys, g_c.sid, c->nsuites ? c->suites : NULL, (uint8_t) c->nsuites,
                                    c->ccb ? cb_client : NULL, c->name, NULL, NULL, &so);
     if (rc != MATRIXSSL_REQUEST_SEND) return rc - 6000;
+    if (c->year) g_pin_year = c->year;   /* the handshake itself runs at the requested date (expired / not yet valid certificates) */
     g_ssl_of[0] = g_c.ssl; g_ssl_of[1] = g_s.ssl;
     return 0;
 }
